@@ -1,0 +1,190 @@
+//go:build verif
+
+package encoding
+
+import (
+	"bufio"
+	"io"
+)
+
+var _ = bufio.NewReader
+
+// ---------------------------------------------------------------------------------------
+// Ghost model of a byte stream read through bufio.Reader (C11, application side:
+// std/engine/face.(*StreamFace).Run reads T, L, then exactly L bytes).
+// ---------------------------------------------------------------------------------------
+//
+// The connection is an arbitrary (uninterpreted) function from positions to bytes together with an arbitrary length,
+// exactly as in the forwarder-side model (fw/face/zz_verif_stream.go): contracts stated over it speak about EVERY
+// stream, and since a function does not live in the heap nothing the code writes can touch it.
+//
+// Positions (ghost state):
+//
+//	ghostStrConn  how many bytes have been taken FROM THE CONNECTION so far (by whatever reader)
+//	verifStrRd    the bufio.Reader most recently created on the connection (the "live" reader)
+//	ghostStrPos   the LOGICAL position of the live reader: how many stream bytes it has handed to its caller
+//
+// ghostStrConn - ghostStrPos >= 0 is the live reader's read-ahead: bytes it has already taken from the connection
+// into its internal buffer but not yet handed out. It may change arbitrarily at every read (bufio documents no more).
+// The logical stream of ONE bufio.Reader is contiguous; a NEW bufio.Reader created on the same connection starts at
+// the CONNECTION's position (deps/bufio.contract: bufio.NewReader), i.e. it skips whatever its predecessor had read
+// ahead. Reads through a reader other than the live one are not modelled: every read contract REQUIRES the receiver
+// to be the live reader (an obligation at each call site, not an assumption).
+//
+// verifStrRd is written only by bufio.NewReader and obeys the ordinary frame discipline (a function that creates a
+// reader lists it in `modifies`); the two positions are ghost* globals (no frame entry; a call havocs them iff its
+// target can reach a contract that lists them).
+
+func specStrByte(i int) byte { panic("ghost") } // byte i of the stream
+func specStrLen(z int) int   { panic("ghost") } // total length of the stream (the argument is a dummy, always 0)
+
+var ghostStrConn int
+var ghostStrPos int
+var verifStrRd *bufio.Reader
+
+// specStrStart(q): q is a block boundary of the stream (uninterpreted; constrained by specStrWFAt).
+func specStrStart(q int) bool { panic("ghost") }
+
+// specStrLive(r): r is the live bufio.Reader of the connection.
+func specStrLive(r io.ByteReader) bool {
+	if br, ok := r.(*bufio.Reader); ok {
+		return br != nil && br == verifStrRd
+	}
+	return false
+}
+
+// specStrInv: the live reader has handed out no more than was taken from the connection, which is no more than the
+// stream holds (a stream is at most MaxInt64 bytes long: positions are machine integers, A-MEM).
+func specStrInv(pos int, conn int) bool {
+	return 0 <= pos && pos <= conn && conn <= specStrLen(0) && specStrLen(0) <= 9223372036854775807
+}
+
+// NDN-TLV variable-length number at stream offset q (packet format specification: one byte below 253, otherwise a
+// marker byte 0xFD / 0xFE / 0xFF followed by 2 / 4 / 8 bytes, big endian).
+func specStrNumSize(q int) int {
+	switch {
+	case specStrByte(q) <= 0xfc:
+		return 1
+	case specStrByte(q) == 0xfd:
+		return 3
+	case specStrByte(q) == 0xfe:
+		return 5
+	}
+	return 9
+}
+
+func specStrBE2(q int) uint64 { return uint64(specStrByte(q))*256 + uint64(specStrByte(q+1)) }
+func specStrBE4(q int) uint64 { return specStrBE2(q)*65536 + specStrBE2(q+2) }
+func specStrBE8(q int) uint64 { return specStrBE4(q)*4294967296 + specStrBE4(q+4) }
+
+// specStrBE: big-endian value of the k stream bytes (0 <= k <= 8) starting at q (the stream twin of specBE).
+func specStrBE(q int, k int) uint64 {
+	switch k {
+	case 0:
+		return 0
+	case 1:
+		return uint64(specStrByte(q))
+	case 2:
+		return specStrBE2(q)
+	case 3:
+		return specStrBE2(q)*256 + uint64(specStrByte(q+2))
+	case 4:
+		return specStrBE4(q)
+	case 5:
+		return specStrBE4(q)*256 + uint64(specStrByte(q+4))
+	case 6:
+		return specStrBE4(q)*65536 + specStrBE2(q+4)
+	case 7:
+		return (specStrBE4(q)*65536+specStrBE2(q+4))*256 + uint64(specStrByte(q+6))
+	}
+	return specStrBE8(q)
+}
+
+func specStrNumVal(q int) uint64 {
+	switch {
+	case specStrByte(q) <= 0xfc:
+		return uint64(specStrByte(q))
+	case specStrByte(q) == 0xfd:
+		return specStrBE2(q + 1)
+	case specStrByte(q) == 0xfe:
+		return specStrBE4(q + 1)
+	}
+	return specStrBE8(q + 1)
+}
+
+// specStrTSize / specStrLSize / specStrLength: size of the TLV-TYPE field, size of the TLV-LENGTH field and the
+// TLV-LENGTH value of the block that starts at stream offset q.
+func specStrTSize(q int) int     { return specStrNumSize(q) }
+func specStrLSize(q int) int     { return specStrNumSize(q + specStrNumSize(q)) }
+func specStrLength(q int) uint64 { return specStrNumVal(q + specStrNumSize(q)) }
+
+// specStrBlockSize: total size (T, L and V) of the TLV block that starts at stream offset q.
+func specStrBlockSize(q int) int {
+	return specStrTSize(q) + specStrLSize(q) + int(specStrLength(q))
+}
+
+// specStrBlockOK: a well-formed block no larger than a packet starts at q: T and L in shortest form, the whole block
+// inside the stream (the property's hypothesis; 8800 is the maximum packet size). The TLV-TYPE fits 32 bits, as the NDN
+// packet format specifies (TLV-TYPE = VAR-NUMBER-1 / VAR-NUMBER-3 / VAR-NUMBER-5): headers are therefore at most
+// 5 + 3 bytes, and the 9-byte form of lemmaStrNumBytes (injectivity of the 8-byte big-endian value, which the solvers
+// decide only at the edge of the time budget) is not needed and not claimed.
+func specStrBlockOK(q int) bool {
+	return specStrTSize(q) == specTLLen(specStrNumVal(q)) && specStrNumVal(q) <= 4294967295 &&
+		specStrLSize(q) == specTLLen(specStrLength(q)) &&
+		specStrLength(q) <= 8800 && specStrBlockSize(q) <= 8800 && q+specStrBlockSize(q) <= specStrLen(0)
+}
+
+// specStrWFAt(q): the stream is a concatenation of well-formed blocks, stated at boundary q: if q is a boundary inside
+// the stream, a well-formed block starts there and the position after it is again a boundary (same shape as
+// fw/face.specC11WFAt: the fact is supplied at the current delivery position by the environment contracts).
+func specStrWFAt(q int) bool {
+	return specStrImplies(specStrStart(q) && 0 <= q && q < specStrLen(0), specStrBlockOK(q) && specStrStart(q+specStrBlockSize(q)))
+}
+
+func specStrImplies(a, b bool) bool { return !a || b }
+
+// specStrHolds(buf, lo, hi, d): buf[lo:hi] holds the stream bytes [lo+d, hi+d), byte-identical and in order (the bound
+// variable is the index into the buffer; the buffer-to-stream distance d is computed outside the quantifier).
+func specStrHolds(buf []byte, lo int, hi int, d int) bool {
+	return forallIn(lo, hi, func(j int) bool { return buf[j] == specStrByte(j+d) })
+}
+
+// specStrEq9: buf[o+i] is stream byte q+i for the first min(n, 9) positions (quantifier-free on purpose).
+func specStrEq9(buf []byte, o int, q int, n int) bool {
+	return (n < 1 || buf[o] == specStrByte(q)) && (n < 2 || buf[o+1] == specStrByte(q+1)) && (n < 3 || buf[o+2] == specStrByte(q+2)) &&
+		(n < 4 || buf[o+3] == specStrByte(q+3)) && (n < 5 || buf[o+4] == specStrByte(q+4)) && (n < 6 || buf[o+5] == specStrByte(q+5)) &&
+		(n < 7 || buf[o+6] == specStrByte(q+6)) && (n < 8 || buf[o+7] == specStrByte(q+7)) && (n < 9 || buf[o+8] == specStrByte(q+8))
+}
+
+// specStrRange9: typing fact of the ghost symbol for the nine stream bytes q..q+8 (a byte is at most 255; the engine
+// gives no range to the result of a function it never unfolds). Used only in `assume` clauses, quantifier-free.
+func specStrRange9(q int) bool {
+	return specStrByte(q) <= 255 && specStrByte(q+1) <= 255 && specStrByte(q+2) <= 255 && specStrByte(q+3) <= 255 && specStrByte(q+4) <= 255 &&
+		specStrByte(q+5) <= 255 && specStrByte(q+6) <= 255 && specStrByte(q+7) <= 255 && specStrByte(q+8) <= 255 &&
+		specStrByte(q) >= 0 && specStrByte(q+1) >= 0 && specStrByte(q+2) >= 0 && specStrByte(q+3) >= 0 && specStrByte(q+4) >= 0 &&
+		specStrByte(q+5) >= 0 && specStrByte(q+6) >= 0 && specStrByte(q+7) >= 0 && specStrByte(q+8) >= 0
+}
+
+// A variable-length number is determined by its size and its value: a buffer that holds, at o, a number of the same
+// size and the same value as the number at stream offset q holds the same bytes (the marker byte is fixed by the
+// size, the big-endian digits by the value). This is what makes a header REBUILT from the decoded T and L
+// (t.EncodeInto / l.EncodeInto) byte-identical to the header that was read, provided the stream's T and L are in
+// shortest form (specStrBlockOK) - a non-minimal T or L would be re-encoded shorter. Stated for the 1-, 3- and 5-byte forms.
+//
+//@ func lemmaStrNumBytes
+//@   requires 0 <= o
+//@   requires specTLSize(buf, o) == specStrNumSize(q) && specTLVal(buf, o) == specStrNumVal(q) && specStrNumSize(q) <= 5
+//@   assume specStrRange9(q)
+//@   ensures [s1] specStrNumSize(q) == 1 ==> specStrEq9(buf, o, q, 1)
+//@   ensures [s3] specStrNumSize(q) == 3 ==> specStrEq9(buf, o, q, 3)
+//@   ensures [s5] specStrNumSize(q) == 5 ==> specStrEq9(buf, o, q, 5)
+
+func lemmaStrNumBytes(buf []byte, o int, q int) {}
+
+// The quantifier-free form (at most nine byte equalities) as a statement over the buffer index.
+//
+//@ func lemmaStrEq9Holds
+//@   requires 0 <= o && 0 <= n && n <= 9 && q == o+d && specStrEq9(buf, o, q, n)
+//@   ensures specStrHolds(buf, o, o+n, d)
+
+func lemmaStrEq9Holds(buf []byte, o int, q int, n int, d int) {}
